@@ -63,6 +63,8 @@ class PyRunner:
         self.harness = os.path.join(root, "harness", "py", "py_harness.py")
         self.runs = os.path.join(build, "runs")
         self.variant = os.environ.get("PY_MODEL_VARIANT", "fixed") or "fixed"
+        # compiled model for extraction_crosscheck: the private copy the driver was extracted from
+        self.coq_dir = os.environ.get("C_MODEL_COQ_DIR") or os.path.join(self.ex, "coq")
 
     # -- build the extracted model driver (private copy of the four model files, so that the
     #    build does not depend on the state of the shared Coq build directory)
@@ -166,6 +168,281 @@ class PyRunner:
                         prev = c
         close()
         return n
+
+
+# ---------------------------------------------------------------------------------------------
+# Extraction cross-check: extraction (and extract/py_driver.ml) is in the trusted base, so a
+# sample of each run's histories is evaluated a second time INSIDE Coq (vm_compute on the very
+# model the driver was extracted from) and compared with what the extracted driver printed.
+#
+# Both sides are reduced to lists of integers.  The driver's text is lossy in two places
+# (UNone and UVal PNone both print "None"; UNat n and UVal (PVal n) both print the integer; an
+# empty UItems / UKeys / UVals prints "[]"), so the Coq digest identifies exactly those cases
+# and nothing else: list elements carry their own tag (7 item, 8 key, 9 value).
+#
+# xc_go mirrors the main loop of extract/py_driver.ml: the H line performs ONew 0 cap on w0,
+# the history is dead when that leaves no current map, and it dies after a fatal outcome
+# (exception other than KeyError / TypeError / InvalidCapacityError, fuel, out of model).
+COQ_DIGEST_PY = r"""From Coq Require Import ZArith NArith List Bool.
+Import ListNotations.
+From BPT Require Import Common.Base Rust.Tree Py.Tree Py.Run.
+Open Scope Z_scope.
+Definition xc_dv (v : pyval) : list Z := match v with PNone => [0] | PVal z => [1; z] end.
+Definition xc_dk (k : key) : list Z := [kz k; Z.of_N (kid k)].
+Definition xc_digest (o : out) : list Z :=
+  match o with
+  | UNone => [0]
+  | UVal v => xc_dv v
+  | UBool b => [2; if b then 1 else 0]
+  | UNat n => [1; Z.of_nat n]
+  | UPair k v => 3 :: xc_dk k ++ xc_dv v
+  | UItems l => 4 :: flat_map (fun kv : key * pyval => 7 :: xc_dk (fst kv) ++ xc_dv (snd kv)) l
+  | UKeys l => 4 :: flat_map (fun k : key => 8 :: xc_dk k) l
+  | UVals l => 4 :: flat_map (fun v : pyval => 9 :: xc_dv v) l
+  | UExc e => [10; Z.of_nat e]
+  | UNoMap => [11]
+  | UFuel => [12]
+  | UOutOfModel => [13]
+  end.
+Definition xc_fatal (o : out) : bool :=
+  match o with
+  | UExc e => negb (Nat.eqb e 1 || Nat.eqb e 3 || Nat.eqb e 5)
+  | UFuel | UOutOfModel => true
+  | _ => false
+  end.
+Fixpoint xc_drive (legacy : bool) (w : world) (ops : list op) : list (list Z) :=
+  match ops with
+  | [] => []
+  | o :: ops' =>
+      let wx := step legacy w o in
+      xc_digest (snd wx) :: (if xc_fatal (snd wx) then [] else xc_drive legacy (fst wx) ops')
+  end.
+Definition xc_go (legacy : bool) (cap : Z) (ops : list op) : list (list Z) :=
+  let wx := step legacy w0 (ONew 0%N (Z.to_nat cap)) in
+  xc_digest (snd wx) ::
+  (if xc_fatal (snd wx) then []
+   else match current (fst wx) with None => [] | Some _ => xc_drive legacy (fst wx) ops end).
+Definition K (z i : Z) : key := mkKey z (Z.to_N i).
+Definition V (z : Z) : pyval := PVal z.
+Definition Nm (n : Z) : N := Z.to_N n.
+Definition Cp (c : Z) : nat := Z.to_nat c.
+"""
+
+_XC_MAX_LINES = 60        # history length (op lines, directives included)
+_XC_MAX_CAP = 200         # capacities are unary numbers inside Coq
+_XC_MAX_ITEMS = 40        # items of one bulk / update line
+_EXC_CODES = {"KeyError": 1, "ValueError": 2, "TypeError": 3, "IndexError": 4,
+              "InvalidCapacityError": 5, "AttributeError": 6}
+
+
+def _xc_int(tok, lo=None, hi=None):
+    """the integer int_of_string of py_driver.ml reads from tok (plain decimal only; anything
+       else makes the history untranslatable)"""
+    if not re.fullmatch(r"-?[0-9]+", tok):
+        raise ValueError(tok)
+    n = int(tok)
+    if abs(n) >= 1 << 62 or (lo is not None and n < lo) or (hi is not None and n > hi):
+        raise ValueError(tok)
+    return n
+
+
+def _coq_z(tok):
+    return "(%d)" % _xc_int(tok)
+
+
+def _coq_key(z, kid):
+    return "(K (%d) %d)" % (_xc_int(z), _xc_int(kid, lo=0))      # n_of_int is not Z.to_N below 0
+
+
+def _coq_val(tok):
+    return "PNone" if tok == "N" else "(V (%d))" % _xc_int(tok)
+
+
+def _coq_zopt(tok):
+    return "None" if tok == "-" else "(Some (%d))" % _xc_int(tok)
+
+
+def _coq_name(tok):
+    return "(Nm %d)" % _xc_int(tok, lo=0)
+
+
+def _coq_cap(tok):
+    return "(Cp (%d))" % _xc_int(tok, hi=_XC_MAX_CAP)            # nat_of_int n = O for n <= 0 = Z.to_nat
+
+
+def _coq_kv(tok):
+    p = tok.split(":")
+    if len(p) != 3:
+        raise ValueError(tok)
+    return "(%s, %s)" % (_coq_key(p[0], p[1]), _coq_val(p[2]))
+
+
+def _coq_kvs(toks):
+    if len(toks) > _XC_MAX_ITEMS:
+        raise ValueError("too many items")
+    return "[%s]" % "; ".join(_coq_kv(x) for x in toks)
+
+
+def _coq_op(line):
+    """Coq source of the op that parse_op of extract/py_driver.ml builds from this line;
+       ValueError when the driver would not parse it (or it is outside the small fragment)"""
+    t = [x for x in line.split(" ") if x]
+    o, n = (t[0] if t else ""), len(t)
+    if o == "set" and n == 4: return "OSet %s %s" % (_coq_key(t[1], t[2]), _coq_val(t[3]))
+    if o == "getitem" and n == 2: return "OGetItem %s" % _coq_z(t[1])
+    if o == "del" and n == 2: return "ODel %s" % _coq_z(t[1])
+    if o == "get" and n == 2: return "OGet %s None" % _coq_z(t[1])
+    if o == "get" and n == 3: return "OGet %s (Some %s)" % (_coq_z(t[1]), _coq_val(t[2]))
+    if o == "in" and n == 2: return "OContains %s" % _coq_z(t[1])
+    if o == "len" and n == 1: return "OLen"
+    if o == "bool" and n == 1: return "OBool"
+    if o == "pop" and n >= 2: return "OPop %s [%s]" % (_coq_z(t[1]), "; ".join(_coq_val(x) for x in t[2:]))
+    if o == "popitem" and n == 1: return "OPopItem"
+    if o == "setdefault" and n == 3: return "OSetDefault %s None" % _coq_key(t[1], t[2])
+    if o == "setdefault" and n == 4: return "OSetDefault %s (Some %s)" % (_coq_key(t[1], t[2]), _coq_val(t[3]))
+    if o == "update": return "OUpdate %s" % _coq_kvs(t[1:])
+    if o == "copy" and n == 2: return "OCopy %s" % _coq_name(t[1])
+    if o == "use" and n == 2: return "OUse %s" % _coq_name(t[1])
+    if o == "clear" and n == 1: return "OClear"
+    if o in ("items", "keys", "values", "range") and n == 3:
+        return "%s %s %s" % ({"items": "OItems", "keys": "OKeys", "values": "OValues", "range": "ORange"}[o],
+                             _coq_zopt(t[1]), _coq_zopt(t[2]))
+    if o == "new" and n == 3: return "ONew %s %s" % (_coq_name(t[1]), _coq_cap(t[2]))
+    if o == "bulk" and n >= 3: return "OBulk %s %s %s" % (_coq_name(t[1]), _coq_cap(t[2]), _coq_kvs(t[3:]))
+    raise ValueError(line)
+
+
+def _coq_history(h):
+    """(cap, [Coq ops]) of the history h = [H line, line, ...] as the main loop of py_driver.ml
+       reads it; ValueError when it cannot be translated"""
+    t = [x for x in h[0].split(" ") if x]
+    if len(t) < 3 or t[0] != "H" or len(h) - 1 > _XC_MAX_LINES:
+        raise ValueError(h[0])
+    cap = 0
+    for x in t[3:]:
+        if len(x) > 4 and x.startswith("cap="):
+            cap = _xc_int(x[4:])
+    if not 0 <= cap <= _XC_MAX_CAP:
+        raise ValueError(h[0])
+    ops = []
+    for line in h[1:]:
+        t = [x for x in line.split(" ") if x]
+        if not t or (len(t) == 2 and t[0] == "DUMP") or t[0] == "ORACLE":
+            continue                                   # not calls: the driver skips them as well
+        ops.append(_coq_op(line))
+    return cap, ops
+
+
+def _digest_of_trace_text(s):
+    """digest of the text after 'O ' (s_out of py_driver.ml), the counterpart of xc_digest"""
+    dv = lambda x: [0] if x == "None" else [1, int(x)]
+    dk = lambda x: [int(y) for y in x.split("#")]
+    try:
+        if s == "None": return [0]
+        if re.fullmatch(r"-?[0-9]+", s): return [1, int(s)]
+        if s in ("True", "False"): return [2, 1 if s == "True" else 0]
+        m = re.fullmatch(r"\((\S+), (\S+)\)", s)
+        if m: return [3] + dk(m.group(1)) + dv(m.group(2))
+        if s.startswith("[") and s.endswith("]"):
+            out = [4]
+            for x in s[1:-1].split():
+                if "=" in x:
+                    k, v = x.split("=")
+                    out += [7] + dk(k) + dv(v)
+                elif "#" in x:
+                    out += [8] + dk(x)
+                else:
+                    out += [9] + dv(x)
+            return out
+        if s.startswith("EXC "):
+            name = s[4:]
+            return [10, _EXC_CODES[name] if name in _EXC_CODES else int(name[len("Exception"):])]
+        if s == "NOMAP": return [11]
+        if s == "NONTERMINATION": return [12]
+        if s == "OUTOFMODEL": return [13]
+    except ValueError:
+        pass
+    return [-1]
+
+
+def _driver_digests(trace_text):
+    """[[digest of every O line] per history], in the order of the H lines of the driver's output"""
+    want = []
+    for line in trace_text.splitlines():
+        if line.startswith("H "):
+            want.append([])
+        elif line.startswith("O ") and want:
+            want[-1].append(_digest_of_trace_text(line[2:]))
+    return want
+
+
+def _xc_compare(cases, want, coq_out):
+    """cases = [hid]; want = _driver_digests(...); coq_out = what coqc printed for cases.v"""
+    bad, n = [], 0
+    for m in re.finditer(r"CASE (\d+)\n\s*= (.*?)\n\s*: list \(list Z\)", coq_out, re.S):
+        i, term = int(m.group(1)), m.group(2)
+        got = [[int(x) for x in re.findall(r"-?\d+", grp)] for grp in re.findall(r"\[([^\[\]]*)\]", term)]
+        n += 1
+        exp = want[i] if i < len(want) else None
+        if got != exp:
+            e = exp or []
+            j = next((x for x in range(min(len(got), len(e))) if got[x] != e[x]), min(len(got), len(e)))
+            bad.append("history %s, observation %d (of %d / %d): vm_compute %s  vs  extracted driver %s"
+                       % (cases[i], j, len(got), len(e), str(got[j:j + 1])[:300], str(e[j:j + 1])[:300]))
+    if n != len(cases) or len(want) != len(cases):
+        bad.append("%d histories submitted, %d evaluated by coqc, %d in the driver's trace" % (len(cases), n, len(want)))
+    return n, bad
+
+
+def extraction_crosscheck(runner, shard_text, root, max_cases=30):
+    """evaluate small histories with vm_compute inside coqc and compare with what the
+       extracted OCaml driver printed for the same histories; returns (n_checked, [mismatch])"""
+    coq_dir = getattr(runner, "coq_dir", None)
+    if not coq_dir or not os.path.exists(os.path.join(coq_dir, "Py", "Run.vo")):
+        coq_dir = os.environ.get("C_MODEL_COQ_DIR", os.path.join(root, "build", "coq"))
+    hs, cur = [], None
+    for line in shard_text.splitlines():
+        if line.startswith("H "):
+            cur = [line]
+            hs.append(cur)
+        elif cur is not None:
+            cur.append(line)
+    small = []
+    for h in hs:
+        try:
+            cap, ops = _coq_history(h)
+        except ValueError:
+            continue                                   # not in the small fragment: not re-evaluated
+        small.append((h, cap, ops))
+        if len(small) >= max_cases:
+            break
+    if not small:
+        return 0, []
+    d = os.path.join(runner.runs, "xcheck_py_p%d" % os.getpid())
+    shutil.rmtree(d, ignore_errors=True)
+    os.makedirs(d)
+    try:
+        ops_path = os.path.join(d, "ops")
+        open(ops_path, "w").write("".join("\n".join(h) + "\n" for h, _, _ in small))
+        r = subprocess.run([runner.driver, ops_path, runner.variant], stdout=subprocess.PIPE, stderr=subprocess.PIPE,
+                           timeout=600)
+        if r.returncode != 0:
+            return 0, ["the extracted driver failed (rc=%d): %s" % (r.returncode, r.stderr.decode("utf-8", "replace")[-500:])]
+        want = _driver_digests(r.stdout.decode("utf-8", "replace"))
+        legacy = "true" if runner.variant == "legacy" else "false"
+        v = [COQ_DIGEST_PY]
+        for i, (h, cap, ops) in enumerate(small):
+            v.append("Definition c%d := xc_go %s (%d) [%s]." % (i, legacy, cap, ";\n  ".join(ops)))
+            v.append('Goal True. idtac "CASE %d". Abort.\nEval vm_compute in c%d.' % (i, i))
+        open(os.path.join(d, "cases.v"), "w").write("\n".join(v) + "\n")
+        r = subprocess.run(["timeout", "900", "coqc", "-Q", coq_dir, "BPT", "cases.v"], cwd=d,
+                           stdout=subprocess.PIPE, stderr=subprocess.STDOUT)
+        out = r.stdout.decode("utf-8", "replace")
+        if r.returncode != 0:
+            return 0, ["coqc failed on cases.v: " + out[-800:]]
+        return _xc_compare([h[0].split()[1] for h, _, _ in small], want, out)
+    finally:
+        shutil.rmtree(d, ignore_errors=True)
 
 
 for _cfg in PROPS_PY.values():
